@@ -3,6 +3,7 @@ package harness
 import (
 	"fmt"
 	"sort"
+	"strings"
 	"testing"
 
 	"pgregory.net/rapid"
@@ -13,6 +14,7 @@ import (
 type restartCase struct {
 	Sc       *Scenario `json:"sc"`
 	Restarts []uint32  `json:"restarts"`
+	Dropped  []uint32  `json:"dropped_by_known_finding,omitempty"` // restart heights at which C09/avg-window predicts a difference
 }
 
 type pip10Info struct {
@@ -48,7 +50,11 @@ func genPIP10Scenario(t *rapid.T, st *Stats) (*Scenario, pip10Info) {
 	era := ModernEra(start)
 	era.PIP10 = start
 	n := rapid.IntRange(14, 30).Draw(t, "nblocks")
-	gapsAllowed := !Open("C09/avg-window")
+	// ungraded heights are generated in both families. With a short window the registered finding
+	// C09/avg-window makes some (chain, restart) combinations diverge; those are recognised
+	// exactly, by replaying the cache arithmetic on the rated heights (avgWindowDiverges), and only
+	// those restart heights are dropped.
+	gapsAllowed := true
 	if rapid.Bool().Draw(t, "longWindow") {
 		// a window longer than the whole chain: the averaging window never slides past the first
 		// rated height, so reload-by-height and maintain-by-count coincide and ungraded heights
@@ -103,6 +109,86 @@ func genPIP10Scenario(t *rapid.T, st *Stats) (*Scenario, pip10Info) {
 	return w.Scenario(), info
 }
 
+// avgWindowDiverges replays the bookkeeping of the rolling-average cache — which heights
+// contribute to the average handed to each graded block — for a continuous process and for one
+// restarted after the given heights, and reports whether the two ever differ at a block at or
+// above the PIP-10 activation. The cache is asked, at every graded block, for the previous rated
+// height; it reloads the rated heights of the last P *heights* when that is not the successor of
+// the height it holds (always after a restart, and after every ungraded height), and otherwise
+// appends to a list trimmed to P *entries*. The two only disagree when ungraded heights lie inside
+// the window: exactly the registered finding C09/avg-window.
+func avgWindowDiverges(rated []uint32, P int, pip10 uint32, restarts []uint32) bool {
+	isRated := map[uint32]bool{}
+	for _, r := range rated {
+		isRated[r] = true
+	}
+	type proc struct {
+		last uint32
+		data []uint32
+	}
+	step := func(p *proc, h uint32) {
+		switch {
+		case p.last == h:
+			return
+		case p.last+1 < h || p.last > h:
+			p.data = nil
+			lo := int64(h) - int64(P) + 1
+			for _, r := range rated {
+				if int64(r) >= lo && r <= h {
+					p.data = append(p.data, r)
+				}
+			}
+		default:
+			for len(p.data) >= P {
+				p.data = p.data[1:]
+			}
+			if isRated[h] {
+				p.data = append(p.data, h)
+			}
+		}
+		p.last = h
+	}
+	rs := append([]uint32(nil), restarts...)
+	sort.Slice(rs, func(i, j int) bool { return rs[i] < rs[j] })
+	a, b := &proc{}, &proc{}
+	prev := uint32(0)
+	for _, c := range rated {
+		for len(rs) > 0 && rs[0] < c {
+			b = &proc{} // the restarted process starts with an empty cache
+			rs = rs[1:]
+		}
+		if prev != 0 {
+			step(a, prev)
+			step(b, prev)
+			if c >= pip10 && fmt.Sprint(a.data) != fmt.Sprint(b.data) {
+				return true
+			}
+		}
+		prev = c
+	}
+	return false
+}
+
+// ratedHeights lists the heights with recorded rates in a ledger dump.
+func ratedHeights(d Dump) []uint32 {
+	seen := map[uint32]bool{}
+	var out []uint32
+	for _, r := range d["pn_rate"] {
+		for _, f := range strings.Fields(r) {
+			if strings.HasPrefix(f, "height=") {
+				var h uint32
+				fmt.Sscan(f[len("height="):], &h)
+				if !seen[h] {
+					seen[h] = true
+					out = append(out, h)
+				}
+			}
+		}
+	}
+	sort.Slice(out, func(i, j int) bool { return out[i] < out[j] })
+	return out
+}
+
 // runWithRestarts syncs the chain, closing and re-opening the daemon cleanly
 // after each height in restarts.
 func runWithRestarts(sc *Scenario, dbPath string, restarts []uint32) (SyncResult, Dump, error) {
@@ -144,6 +230,24 @@ func checkRestart(c *restartCase) string {
 	if !r0.OK(c.Sc.Chain.Tip) {
 		return "harness: continuous run failed: " + r0.String()
 	}
+	c.Dropped = nil
+	if deviates("C09/avg-window") && c.Sc.Era.PIP10 != Never {
+		// keep the restart heights for which the registered finding predicts no difference
+		P := int(c.Sc.Era.AvgPeriod)
+		if P == 0 {
+			P = 288
+		}
+		rated := ratedHeights(d0)
+		var keep []uint32
+		for _, r := range c.Restarts {
+			if avgWindowDiverges(rated, P, c.Sc.Era.PIP10, append(append([]uint32(nil), keep...), r)) {
+				c.Dropped = append(c.Dropped, r)
+			} else {
+				keep = append(keep, r)
+			}
+		}
+		c.Restarts = keep
+	}
 	r1, d1, err := runWithRestarts(c.Sc, dir+"/rst", c.Restarts)
 	if err != nil {
 		return "harness: " + err.Error()
@@ -179,10 +283,7 @@ func TestC09(t *testing.T) {
 			sc = GenModernScenario(rt, cfg)
 		case 4: // every era incl. the legacy graders, the PEG bank and the 2.0 switch
 			sc = GenTimelineScenario(rt, DefaultCfg())
-			if Open("C09/avg-window") {
-				// the timeline ends in the PIP-10 era with a short window: stop before it
-				truncateBeforePIP10(sc)
-			}
+			// (restarts inside its PIP-10 era are filtered by avgWindowDiverges like everywhere else)
 		default:
 			sc, info = genPIP10Scenario(rt, st)
 		}
@@ -209,7 +310,16 @@ func TestC09(t *testing.T) {
 			s["pip10"] = info
 			st.Sample(s)
 		}
-		if msg := checkRestart(c); msg != "" {
+		msg := checkRestart(c)
+		if len(c.Dropped) > 0 {
+			st.Exclude("C09/avg-window")
+			st.Add("restart_heights_dropped_by_known_finding", int64(len(c.Dropped)))
+		}
+		st.Add("restart_heights_used", int64(len(c.Restarts)))
+		if info.Gaps > 0 && len(c.Restarts) > 0 && sc.Era.AvgPeriod < 12 {
+			st.Label("short-window-with-ungraded-heights-and-restarts")
+		}
+		if msg != "" {
 			fail(st, rt, msg, c)
 		}
 	})
@@ -238,6 +348,8 @@ func init() {
 		}
 		sc := w.Scenario()
 		c := &restartCase{Sc: sc, Restarts: []uint32{start + 9}}
+		ModelStrict = true
+		defer func() { ModelStrict = false }()
 		msg := checkRestart(c)
 		return msg != "", trunc(msg, 600), c
 	})
